@@ -19,7 +19,7 @@ for l in open(os.path.join(VERIF, "properties.jsonl")):
 EXTRA = {"ractor/src/actor/actor_properties.rs": ["C01", "C02", "C03", "C05", "C06", "C07", "C08", "C09", "C10", "C11"], "ractor/src/actor.rs": ["C02", "C03", "C06", "C07", "C09", "C10", "C12", "C19"],
          "ractor/src/actor/actor_cell.rs": ["C01", "C02", "C07", "C09", "C11", "C12"], "ractor/src/thread_local/inner.rs": ["C02", "C03", "C06", "C07", "C09", "C19"],
          "ractor/src/factory/factoryimpl.rs": ["C12", "C13", "C14", "C15"], "ractor/src/factory/worker.rs": ["C13", "C14", "C15"], "ractor/src/pg.rs": ["C06", "C08", "C11", "C20"],
-         "ractor_cluster/src/node/node_session.rs": ["C17", "C18", "C19", "C20"], "ractor_cluster/src/net/session.rs": ["C19", "C20"], "ractor/src/time.rs": ["C12"], "ractor/src/rpc.rs": ["C09"]}
+         "ractor_cluster/src/node/node_session.rs": ["C17", "C18", "C19", "C20"], "ractor_cluster/src/net/session.rs": ["C19", "C20"], "ractor/src/time.rs": ["C12"], "ractor/src/actor/supervision.rs": ["C02", "C04", "C05", "C07", "C08"], "ractor_cluster/src/node.rs": ["C17", "C18"], "ractor/src/port/output.rs": ["C16"], "ractor/src/rpc.rs": ["C09"]}
 SCRATCH_NAME = "r"
 for a in sys.argv[1:]:
     if a.startswith("--scratch="):
